@@ -618,6 +618,7 @@ dt_strpdt(const char *str, const char *fmt, char **ep)
 	const char *sp = str;
 	const char *fp;
 	int transd = 0;
+	int epochp = 0;
 
 	if (LIKELY(fmt == NULL)) {
 		return __strpdt_std(str, ep);
@@ -724,6 +725,9 @@ dt_strpdt(const char *str, const char *fmt, char **ep)
 			if (__strpdt_card(&d, sp, spec, (char**)&sp) < 0) {
 				goto fucked;
 			}
+			/* the epoch itself reads 0 */
+			epochp |= spec.spfl == DT_SPFL_N_EPOCH ||
+				spec.spfl == DT_SPFL_N_EPOCHNS;
 			if (spec.ord &&
 			    __ordinalp(sp_sav, sp - sp_sav, (char**)&sp) < 0) {
 				;
@@ -757,7 +761,7 @@ dt_strpdt(const char *str, const char *fmt, char **ep)
 		goto fucked;
 	}
 	/* check if it's a sexy type */
-	if (d.i) {
+	if (d.i || epochp) {
 		res.typ = DT_SEXY;
 		res.sexy = d.i;
 	} else {
